@@ -397,4 +397,5 @@ def check(ctx, rep, upto=None):
             return True
         h = type_head(ty)
         return depth < 2 and h in mac.adts and any(holds_holder(f['ty'], depth + 1) for f in (adt_fields(mac, h) or []))
-    rep.ob('R4', 'one-global-holder', len(st) == 1 and holds_holder(st[0]['ty']), '', 'exactly one static (holding the) holder: %s' % [c['path'] for c in st])
+    hst = [c for c in st if holds_holder(c['ty'])]
+    rep.ob('R4', 'one-global-holder', len(hst) == 1, '', 'exactly one static (holding the) holder: %s' % [c['path'] for c in hst])
